@@ -34,6 +34,11 @@ T = {
  'c18l': ("the calling thread's own gmpy2 context changed earlier (application code or a primitive's Python body), then an MPFR-backed operation on double-sized operands", 'C18 A3/H1 (needed the ambient fault, which also found F3 on the unchanged tree)'),
  'c19j': ('an indexed assignment with a site in a subscript and a site in the stored value, expression-sited strategy aimed by index', 'C19 index-and-listed-site-differ (needed the roots stores_a / ir_b and the index-versus-listed-site check)'),
  'c19k': ("inline of a call in a compound statement's header while other sites lie beneath it", 'C19 edit-log-miscounts on calls_c'),
+ 'c17j': ('a stochastic context of a family with a minimum exponent and an unrepresentable operand below 2^emin', 'C17 count-mismatch (subnormal / zero_gap positions)'),
+ 'c18m': ('a tuple argument whose leaves are all FPy values and which holds a list the function writes or returns', 'C18 A1/A2 on deep (as c18c; needed the boundary sweep to be reliable)'),
+ 'c18n': ('a copy derived by an expression rewrite rule (no statement edit reported), evaluated after its source in the same interpreter', 'C18 H1/A3 on muladd (needed rewrite-rule derivations and the derive run shape)'),
+ 'c19l': ('unroll_for STRICT, a refused loop before an accepted one, where an integer', 'C19 bad-where-accepted / rewrite-outside-named-site'),
+ 'c19m': ('a region ending right before a statement whose call inline expands (pure insertion exactly at the region end)', 'C19 forward-unrelated by rule (d): untouched, un-aimed statements are named exactly by their images'),
 }
 base = os.path.join(os.path.dirname(os.path.dirname(os.path.abspath(__file__))), 'seeded')
 for mid, (needs, caught) in T.items():
